@@ -97,7 +97,7 @@ func init() {
 			"generated set: per (side, from-square) case, symbolic to-square and promotion bits: emitted at most once, and emitted iff pseudo-legal by the mailbox FIDE specification (castling conditions included); quick: 7 from-squares (e1, e8, a1, h8, e2, e7 and one seeded) for both sides, thorough: all 64",
 			"legality filter: per concrete (side, from, to, promotion) case from an arbitrary valid position: MakeMove followed by InCheck rejects exactly the moves after which the mover's king is attacked in the specification's successor; quick: seeded sample of the case split, thorough: eight times the quick sampling rates (tier `exhaustive`: all 3760 cases)")
 		s.Assumptions = append(s.Assumptions, "FIDE legality = pseudo-legal by VpPseudoLegal and own king not attacked in VpMakeSpec's successor (harness/board/spec.go); the specification layer is compared natively with the engine on the repo's test positions on every run")
-		s.Instances = append(s.Instances, stepInstancesDiv("VpH_C01_filter", tier, seed, 2, 1, 2, nil)...)
+		s.Instances = append(s.Instances, stepInstancesDiv("VpH_C01_filter", tier, seed, 2, 1, 1, nil)...)
 		s.Instances = append(s.Instances, castlesInstances()...)
 		s.Instances = append(s.Instances, doublePushInstances("VpH_C01_eptarget")...)
 		s.Bounds = append(s.Bounds, "positions reached by playing moves: the castling-rights update for EVERY (from, to, promotion bits) at once (symbolic move) from an arbitrary valid position, so that a right never outlives its king or rook leaving/being captured on the home square; and, for all 16 double pawn pushes, the en-passant target is recorded iff a legal en-passant capture exists in the successor; the other clauses of successor validity are C02's one-step obligations")
